@@ -28,6 +28,7 @@ type TimingCfg struct {
 	Dur         int    // every failing attempt takes this long (ms): the wait counts from its END
 	ErrKind     int    // what a failing attempt returns: 0 plain, 1 wraps context.DeadlineExceeded, 2 wraps context.Canceled, 3 errors.Join
 	DeadlineMs  int    // > 0: the run's context carries a real deadline this long after the start (instead of cancel())
+	Cause       bool   // the context is cancelled with a cause (context.WithCancelCause)
 }
 
 func (c TimingCfg) toJSON() map[string]any {
@@ -36,12 +37,12 @@ func (c TimingCfg) toJSON() map[string]any {
 		sc = append(sc, b)
 	}
 	return map[string]any{"w": c.W, "N": c.N, "kind": c.Kind, "n": c.Items, "c": c.C, "script": sc, "upper": c.Upper, "cancelafter": c.CancelAfter, "dur": c.Dur, "fb": c.Fb, "stop": c.Stop, "dur2": c.Dur2,
-		"errkind": c.ErrKind, "deadlinems": c.DeadlineMs}
+		"errkind": c.ErrKind, "deadlinems": c.DeadlineMs, "cause": c.Cause}
 }
 
 func parseTimingCfg(m map[string]any) TimingCfg {
 	c := TimingCfg{W: asInt(m["w"]), N: asInt(m["N"]), Kind: asStr(m["kind"]), Items: asInt(m["n"]), C: asInt(m["c"]), Upper: asBool(m["upper"]), CancelAfter: asInt(m["cancelafter"]), Dur: asInt(m["dur"]), Fb: asBool(m["fb"]), Stop: asBool(m["stop"]), Dur2: asInt(m["dur2"]),
-		ErrKind: asInt(m["errkind"]), DeadlineMs: asInt(m["deadlinems"])}
+		ErrKind: asInt(m["errkind"]), DeadlineMs: asInt(m["deadlinems"]), Cause: asBool(m["cause"])}
 	for _, b := range asList(m["script"]) {
 		c.Script = append(c.Script, asBool(b))
 	}
@@ -130,6 +131,9 @@ func runTimingScenario(cfg TimingCfg) []Event {
 	t.start = time.Now()
 	if cfg.DeadlineMs > 0 {
 		ctx, cancel = context.WithDeadline(context.Background(), t.start.Add(time.Duration(cfg.DeadlineMs)*time.Millisecond))
+	} else if cfg.Cause {
+		c2, cancelCause := context.WithCancelCause(context.Background())
+		ctx, cancel = c2, func() { cancelCause(errors.New("service shutting down")) }
 	}
 	t.cancel = cancel
 	defer cancel()
@@ -167,8 +171,20 @@ func runTimingScenario(cfg TimingCfg) []Event {
 			}).
 			WithExecFuncAny(func(ctx context.Context, p any) (any, error) { return t.exec(p.(int)) }).
 			WithPostFunc(func(ctx context.Context, s *flyt.SharedStore, a, b []flyt.Result) (flyt.Action, error) {
-				// the slots of the last item are ready when post starts
-				t.log(Event{"ev": "slot", "p": len(a), "t0": t.us()})
+				// the slots of the last item are ready when post starts; what each slot holds: 0 a value, 1 an error
+				// matching the context's error, 2 another error
+				kinds := []any{}
+				for _, r := range b {
+					switch {
+					case !r.IsError():
+						kinds = append(kinds, 0)
+					case ctx.Err() != nil && errors.Is(r.Error(), ctx.Err()):
+						kinds = append(kinds, 1)
+					default:
+						kinds = append(kinds, 2)
+					}
+				}
+				t.log(Event{"ev": "slot", "p": len(a), "t0": t.us(), "kinds": kinds})
 				return flyt.DefaultAction, nil
 			})
 	}
@@ -270,6 +286,9 @@ func init() {
 					if ca <= 2 && n <= 3 {
 						// the same cancellation arriving as the expiry of the context's deadline, 150 ms into the wait
 						c.DeadlineMs = (ca-1)*w + 150
+						cfgs = append(cfgs, c)
+						// ... and as a cancellation with a cause
+						c.DeadlineMs, c.Cause = 0, true
 						cfgs = append(cfgs, c)
 					}
 				}
